@@ -335,3 +335,20 @@ void run_case(ByteSource& bs, CaseInfo& ci) {
   ci.sample = w.log;
 }
 void enumerate(const Emit&, const std::string&) {}
+
+// fixed finding 041ada4: a consumed rvalue operand kept pointing at the storage taken from it
+void regressions() {
+  for (int d = 2; d <= 6; d++) for (int form = 0; form < 3; form++) {
+    std::vector<double> c(d * d); for (int i = 0; i < d * d; i++) c[i] = 1.0 + i;
+    SU_vector a(c), b(c);
+    std::unique_ptr<SU_vector> t;
+    if (form == 0) t.reset(new SU_vector(std::move(a) + b));
+    else if (form == 1) { t.reset(new SU_vector()); *t = std::move(a) + b; }
+    else { t.reset(new SU_vector(2 + (d - 1) % 5)); *t = squids::ElementwiseProduct(b, std::move(a)); }
+    std::vector<double> tv = comps(*t);
+    SU_vector other(d); other.SetAllComponents(-9.0);
+    a = other;   // must not write into t's storage
+    CHECK(comps(*t) == tv, "C08|two-vectors-share-storage", "regression: assigning to a consumed operand changed the result (d=%d form=%d)", d, form);
+    CHECK(a.Dim() == (unsigned)d && &a[0] != &(*t)[0], "C08|two-vectors-share-storage", "regression: consumed operand and result share storage (d=%d form=%d)", d, form);
+  }
+}
